@@ -32,7 +32,11 @@ func runC01(c *Ctx, r *Report) {
 	r.Doc("R-C01.8", "no element of a list that decides heads or order is skipped: a slice is not shortened in place inside the index loop that walks it unless the index steps back")
 	removalWhileIterating(c, r, "R-C01.8")
 	r.Doc("R-C01.9", "the loops of the merge (candidates, validation, apply, head filters, map copies) process every element")
-	loopsComplete(c, r, "R-C01.9", func(fn *Fn) bool { return rootNamed(fn, "Join", "difference", "FindHeads", "NewOrderedMapFromEntries", "Merge", "Copy", "Slice", "Keys") || inPkgs(c.P, fn, "entry/sorting") }, "part of the candidates, links or heads is left out of the merge, so the result depends on what was left out — replicas that merged in another order disagree")
+	loopsComplete(c, r, "R-C01.9", func(fn *Fn) bool {
+		return rootNamed(fn, "Join", "difference", "FindHeads", "NewOrderedMapFromEntries", "Merge", "Copy", "Slice", "Keys") || inPkgs(c.P, fn, "entry/sorting")
+	}, "part of the candidates, links or heads is left out of the merge, so the result depends on what was left out — replicas that merged in another order disagree")
+	r.Doc("R-C01.10", "entries are filed in the entry index under their own hash and in the predecessor index under their own predecessor links (a link index fed from references, or from another list, makes head filtering depend on merge order)")
+	indexKeys(c, r, "R-C01.10")
 	join := p.FuncI("", "IPFSLog", "Join")
 
 	// ---- R-C01.1
@@ -321,6 +325,45 @@ func mergedHeadsDeps(c *Ctx, r *Report, rule string, join *Fn) {
 				}
 			}
 		}
+		// the candidate set handed to the head scan is built from the two head sets, not from the source's entry index
+		isSrcEntries := func(v ssa.Value) bool {
+			switch y := v.(type) {
+			case *ssa.Call:
+				if y.Call.IsInvoke() && (y.Call.Method.Name() == "GetEntries" || y.Call.Method.Name() == "Values") && derivesFromParam(y.Call.Value, other) {
+					return true
+				}
+			case *ssa.Extract:
+				if call, ok := y.Tuple.(*ssa.Call); ok && y.Index == 1 {
+					if cal := call.Call.StaticCallee(); cal != nil && len(call.Call.Args) > 0 && derivesFromParam(call.Call.Args[0], other) {
+						if _, isMap := y.Type().Underlying().(*types.Interface); isMap {
+							return true
+						}
+					}
+				}
+			}
+			return false
+		}
+		nscan := 0
+		for x := range bs {
+			call, ok := x.(*ssa.Call)
+			if !ok || call.Parent() != sf {
+				continue
+			}
+			if f := calleeOf(call); f == nil || f.Name() != "FindHeads" || len(call.Call.Args) != 1 {
+				continue
+			}
+			nscan++
+			fromEntries := ""
+			for y := range backSlice(call.Call.Args[0], nil) {
+				if isSrcEntries(y) {
+					fromEntries = p.Pos(y.Pos())
+				}
+			}
+			r.Check(fromEntries == "", rule, r.Key(rule, join, "head-candidates", ""), call.Pos(),
+				"the candidates for the merged heads are the two head sets",
+				"the candidate set handed to the head scan is built from the source's entry index (read at "+fromEntries+") instead of its heads: the index can be newer than the heads that were read, so entries that were merged and are unreferenced end up outside the heads (or the log is left with no heads at all)")
+		}
+		r.Floor(rule, "head scans feeding the merged heads", nscan, 1)
 		for _, need := range []string{"destination heads", "source heads", "predecessor links of the new items", "destination predecessor/entry index"} {
 			r.Check(dep[need], rule, r.Key(rule, join, "heads-depend-on", need), st.Pos(),
 				"the merged head set depends on the "+need, "the head set stored by the merge does not depend on the "+need+": "+map[string]string{
